@@ -19,14 +19,30 @@ type regOp struct {
 	Key   string   // "" = none
 	FB    string   // fallback key
 	Names []string // include name list
-	Src   string
-	Obs   string // observed: "src:<text>" | "notfound" | "unit" | "err:<msg>" | "panic"
+	Src   string   // what a tree parsed from the source renders (the source's identity for the specification)
+	Text  string   // the source handed to Parse when it differs from Src (line breaks and indentation)
+	Keep  bool     // keepFmt argument of Parse
+	Obs   string   // observed: "src:<text>" | "notfound" | "unit" | "err:<msg>" | "panic"
 }
 
 var c04Sources = []string{"source-A", "source-B", "source-C", "source-D"}
 var c04Keys = []string{"k0", "k1", "k2"}
 
+// real: the arguments of the Parse call of this operation.
+func (op regOp) real() ([]byte, bool) {
+	if op.Text != "" {
+		return []byte(op.Text), op.Keep
+	}
+	return []byte(op.Src), op.Keep
+}
+
+// multi-line sources: with keepFmt they render verbatim, without it line breaks and indentation go
+var c04Multi = []string{"source-E\n\tmore", "source-F\n  tail\nend"}
+
 func (op regOp) String() string {
+	if op.Text != "" {
+		op.Src = fmt.Sprintf("%s (keepFmt=%v)", op.Text, op.Keep)
+	}
 	switch op.Kind {
 	case "parse":
 		return fmt.Sprintf("Parse(%q)", op.Src)
@@ -59,15 +75,23 @@ func genHistory(r *RNG, maxLen int) []regOp {
 			// bias to replace-and-restore: reuse a source registered earlier
 			src = c04Sources[r.Intn(2)]
 		}
+		text, keep := "", r.Bool()
+		if r.Chance(30) {
+			text = c04Multi[r.Intn(len(c04Multi))]
+			src = text
+			if !keep {
+				src = string(cutFmtDoc([]byte(text)))
+			}
+		}
 		switch r.Intn(11) {
 		case 0:
-			ops = append(ops, regOp{Kind: "parse", ID: -1, Src: src})
+			ops = append(ops, regOp{Kind: "parse", ID: -1, Src: src, Text: text, Keep: keep})
 		case 1, 2:
-			ops = append(ops, regOp{Kind: "register", ID: x, Key: c04Keys[x], Src: src})
+			ops = append(ops, regOp{Kind: "register", ID: x, Key: c04Keys[x], Src: src, Text: text, Keep: keep})
 		case 3:
-			ops = append(ops, regOp{Kind: "register", ID: x, Src: src})
+			ops = append(ops, regOp{Kind: "register", ID: x, Src: src, Text: text, Keep: keep})
 		case 4, 5:
-			ops = append(ops, regOp{Kind: "register", ID: -1, Key: c04Keys[x], Src: src})
+			ops = append(ops, regOp{Kind: "register", ID: -1, Key: c04Keys[x], Src: src, Text: text, Keep: keep})
 		case 6, 7:
 			ops = append(ops, regOp{Kind: "renderKey", ID: -1, Key: c04Keys[x]})
 		case 8:
@@ -100,7 +124,7 @@ func runHistory(ops []regOp) {
 			ctx := dyntpl.NewCtx()
 			switch op.Kind {
 			case "parse":
-				t, err := dyntpl.Parse([]byte(op.Src), false)
+				t, err := dyntpl.Parse(op.real())
 				if err != nil {
 					return nil, err
 				}
@@ -111,7 +135,7 @@ func runHistory(ops []regOp) {
 				}
 				return b.Bytes(), nil
 			case "register":
-				t, err := dyntpl.Parse([]byte(op.Src), false)
+				t, err := dyntpl.Parse(op.real())
 				if err != nil {
 					return nil, err
 				}
